@@ -58,6 +58,18 @@ def alts(t):
     return set(t[1]) if t[0] == "phi" else {t}
 
 
+def flat_alts(t):
+    """Alternatives of a value through phi nodes and conditional expressions."""
+    if t[0] == "phi":
+        out = set()
+        for a in t[1]:
+            out |= flat_alts(a)
+        return out
+    if t[0] == "ifexp":
+        return flat_alts(t[2]) | flat_alts(t[3])
+    return {t}
+
+
 def strip_none(t):
     """``phi{X, None}`` used as an object (subscripted / called / attribute
     access) can only be X without raising."""
@@ -247,6 +259,15 @@ def canon_item(base, k):
             return base[1][k]
     if base[0] == "attr" and base[2] == "T" and isinstance(k, int):
         return canon_col(base[1], ("const", k))
+    # a, b = {..}.values() / .keys() / .items() of a dict display
+    if base[0] == "call" and base[1][0] == "attr" and base[1][1][0] == "dict" and not base[2] and isinstance(k, int) and k < len(base[1][1][1]):
+        kv = base[1][1][1][k]
+        if base[1][2] == "values":
+            return kv[1]
+        if base[1][2] == "keys":
+            return kv[0]
+        if base[1][2] == "items":
+            return ("tuple", (kv[0], kv[1]))
     if base[0] == "phi":
         return phi(canon_item(a, k) for a in base[1])
     return ("item", base, k)
